@@ -58,3 +58,12 @@ theories/Crc/CrcProofs.vos theories/Crc/CrcProofs.vok theories/Crc/CrcProofs.req
 theories/Properties_C14.vo theories/Properties_C14.glob theories/Properties_C14.v.beautified theories/Properties_C14.required_vo: theories/Properties_C14.v theories/Crc/Crc.vo theories/Crc/CrcProofs.vo theories/Crc/Csum.vo theories/Gen/CrcTables.vo
 theories/Properties_C14.vio: theories/Properties_C14.v theories/Crc/Crc.vio theories/Crc/CrcProofs.vio theories/Crc/Csum.vio theories/Gen/CrcTables.vio
 theories/Properties_C14.vos theories/Properties_C14.vok theories/Properties_C14.required_vos: theories/Properties_C14.v theories/Crc/Crc.vos theories/Crc/CrcProofs.vos theories/Crc/Csum.vos theories/Gen/CrcTables.vos
+theories/Jbd2/Jbd2Model.vo theories/Jbd2/Jbd2Model.glob theories/Jbd2/Jbd2Model.v.beautified theories/Jbd2/Jbd2Model.required_vo: theories/Jbd2/Jbd2Model.v 
+theories/Jbd2/Jbd2Model.vio: theories/Jbd2/Jbd2Model.v 
+theories/Jbd2/Jbd2Model.vos theories/Jbd2/Jbd2Model.vok theories/Jbd2/Jbd2Model.required_vos: theories/Jbd2/Jbd2Model.v 
+theories/Jbd2/Jbd2Proofs.vo theories/Jbd2/Jbd2Proofs.glob theories/Jbd2/Jbd2Proofs.v.beautified theories/Jbd2/Jbd2Proofs.required_vo: theories/Jbd2/Jbd2Proofs.v theories/Jbd2/Jbd2Model.vo
+theories/Jbd2/Jbd2Proofs.vio: theories/Jbd2/Jbd2Proofs.v theories/Jbd2/Jbd2Model.vio
+theories/Jbd2/Jbd2Proofs.vos theories/Jbd2/Jbd2Proofs.vok theories/Jbd2/Jbd2Proofs.required_vos: theories/Jbd2/Jbd2Proofs.v theories/Jbd2/Jbd2Model.vos
+theories/Properties_C03.vo theories/Properties_C03.glob theories/Properties_C03.v.beautified theories/Properties_C03.required_vo: theories/Properties_C03.v theories/Jbd2/Jbd2Model.vo theories/Jbd2/Jbd2Proofs.vo
+theories/Properties_C03.vio: theories/Properties_C03.v theories/Jbd2/Jbd2Model.vio theories/Jbd2/Jbd2Proofs.vio
+theories/Properties_C03.vos theories/Properties_C03.vok theories/Properties_C03.required_vos: theories/Properties_C03.v theories/Jbd2/Jbd2Model.vos theories/Jbd2/Jbd2Proofs.vos
